@@ -1590,6 +1590,26 @@ def oracle_route(c, res):
     return uniq
 
 
+QUANT_ROUTES = ["float", "f64", "0d", "1el", "vec", "col", "float-again", "row", "batch", "row-again"]
+
+
+def coq_route(c, res):
+    """CQuant: the quantiles of a base NormalMessage observed through every binary64 route, against the model's value_for"""
+    if "erfinv_tab" not in res or res["desc"].get("t") is not None:
+        return None
+    obs = []
+    for name in QUANT_ROUTES:
+        v = res["routes"].get(name, {}).get("value_for")
+        if isinstance(v, list) and all(x is not None for r in v for x in r):
+            obs.append(clist([clist([cf(h) for h in r]) for r in v]))
+    if not obs:
+        return None
+    tab = clist([cpair(cf(k), cf(v)) for k, v in res["erfinv_tab"]])
+    es = clist([clist([cf(x) for x in e]) for e in res["desc"]["elems"]])
+    us = clist([clist([cf(h) for h in r]) for r in c["u"]])
+    return "CQuant %s %s %s %s" % (tab, es, us, clist(obs))
+
+
 def nontrivial(c):
     if c["kind"] == "alg":
         return c["law"] != "pow1" or c["fam"] != "fixed"
@@ -1733,6 +1753,11 @@ def run(ctx):
                 for rn_ in reps_:
                     ctx.hist("route", op_ + "@" + rn_)
             fails += oracle_route(c, res)
+            t = coq_route(c, res)
+            if t:
+                coq_terms.append(t)
+                coq_idx.append(i)
+                ctx.hist("route-coq", "CQuant/" + ("scalar" if c["scalar"] else "array"))
         elif kind == "hist":
             fails += oracle_hist(c, res)
             t = coq_hist(c, res)
